@@ -20,7 +20,7 @@ WORKERS = {"quick": 4, "thorough": 16}
 
 def plan(tier, seed):
     n = 4 if tier == "quick" else 16
-    rounds = 30 if tier == "quick" else 150
+    rounds = 30 if tier == "quick" else 300
     return [{"tier": tier, "seed": seed, "shard": i, "n_shards": n, "rounds": rounds} for i in range(n)]
 
 
